@@ -30,11 +30,11 @@ CFG = dict(
              "Outdated() (`dep.State() != Processed`) is true on every read: idle reads re-execute the node and bump its version. "
              "skipping_processor_spurious / no_spurious_full_false prove it of the model; the fixed witness histories W1-W3 show it on "
              "the real nodes.Struct on every run (oracle c11.holds.no_spurious_skipping_processor_witness = false, listed in known_findings.json)",
-             "guard of ALL theorems: ReadsAll — every Process() pulls all its wired inputs. For reads_idempotent / exec_only_if_changed / "
-             "reexecution_needs_change (the proved part of C11_no_spurious_full) the guard is essential (see above). For read_fresh / "
-             "processed_is_fresh / version_* it is a limitation of the proof (the invariant needs an executed node to end up Processed): "
-             "freshness and version accounting of skipping processors are checked on the implementation (303 histories per run with the "
-             "skipping processor type: c11.skip.hist exact correspondence with the extended model, c11.holds.fresh, c11.holds.version), not proved",
+             "ReadsAll (every Process() pulls all its wired inputs) guards ONLY the clause 'a node is Processed right after it executed' and "
+             "what follows from it: reads_idempotent, executed_then_processed, reexecution_needs_change (the proved part of "
+             "C11_no_spurious_full; false without the guard, see above). Freshness (read_fresh, processed_is_fresh), the frame, "
+             "exec_only_if_outdated, exec_only_if_changed and the version accounting are proved for EVERY processor: `fn` receives `none` for "
+             "an input it did not pull and the from-scratch evaluation Spec skips exactly the same inputs (specPull)",
              "guard, not theorem: the graph is acyclic after every call (Valid: it admits SOME ranking, which may change from call "
              "to call, bounded by the fuel F; ids are just names). The Go API has no cycle check and Outdated() recurses forever on a cycle",
              "processors pull their inputs in Dependencies() order (model `pull`/`pullM`); the order does not matter for the values but is fixed in the model",
@@ -52,23 +52,26 @@ CFG = dict(
                  "Go map iteration / reflection behave per the language spec"],
     manifest=dict(
         text="Lean 4 theorems by induction over ARBITRARY histories of parameter sets, re-wirings (scalar and array ports) and reads on any "
-             "graph that stays acyclic (the ranking may change over the history), for every value type and processor function, under the "
-             "explicit guard ReadsAll (every Process() pulls all its wired inputs): reachable_inv (ghost-free invariant), read_fresh / "
-             "processed_is_fresh (Value() returns the from-scratch evaluation of the current graph; every node reporting Processed holds it), "
-             "eval_frame, reads_idempotent, exec_only_if_changed / reexecution_needs_change (a node executes only if a parameter in its cone "
-             "was Set or a node of its cone was re-wired since it last executed), version_counts_executions (+1 per execution and never "
-             "otherwise), remembered_length (the positional version compare cannot go out of range), spec/outdated/eval fuel-free equations; "
-             "permuted_deps_spurious (closed witness of the old map-order defect). The model also expresses processors that SKIP a wired input "
-             "(SNode.reads): skipping_processor_spurious / no_spurious_full_false prove that for them the clause 'recompute only on change' is "
-             "FALSE (idle reads re-execute and bump the version; values stay correct) — known finding C11-skipping-processor, exhibited on "
-             "the real nodes.Struct on every run by fixed witness histories. Tie: the real nodes.Struct / ValueNode / parameter.Value over 15 "
+             "graph that stays acyclic (the ranking may change over the history), for every value type and EVERY processor function, "
+             "including processors that skip wired inputs (SNode.reads; fn gets `none` for an unread input; the from-scratch evaluation skips "
+             "the same inputs): reachable_inv (ghost-free invariant), read_fresh / processed_is_fresh (the value Value() returns is the "
+             "from-scratch evaluation of the current graph; every node reporting Processed holds it), eval_frame, exec_only_if_outdated, "
+             "exec_only_if_changed (a Processed node is not executed until a parameter in its cone is Set or a node of its cone is re-wired), "
+             "version_counts_executions (+1 per execution and never otherwise), remembered_length (the positional version compare cannot go out "
+             "of range), spec/outdated/eval fuel-free equations; permuted_deps_spurious (closed witness of the old map-order defect). Under "
+             "the guard ReadsAll (every Process() pulls all its wired inputs): reads_idempotent, executed_then_processed, "
+             "reexecution_needs_change (a node is Processed right after it executed, so a second read executes nothing). Without the guard "
+             "these are FALSE: skipping_processor_spurious / no_spurious_full_false (idle reads re-execute a processor that skipped a stale "
+             "struct input and bump its version; values stay correct) — known finding C11-skipping-processor, exhibited on the real "
+             "nodes.Struct on every run by fixed witness histories. Tie: the real nodes.Struct / ValueNode / parameter.Value over 15 "
              "all-reading processor types plus one skipping type on chains, diamonds, ladders, shared subgraphs, random DAGs and order-changing "
              "re-wirings; after EVERY operation of random histories the cache, version and state of every node and the executed processors are "
              "compared exactly with the model; fresh / no_spurious / version / dependency-order predicates on the implementation.",
         note="Trusted: Lean kernel + 3 axioms; harness. KNOWN FINDING (the run prints KNOWN-FINDING, exit 0): processors that skip a wired "
-             "struct-node input re-execute on idle reads — the no-spurious / version-only-on-change clauses of C11 are false for them; the "
-             "three no-spurious theorems hold for processors that read all their wired inputs, and the unguarded statement C11_no_spurious_full "
-             "is proved false. Freshness / version accounting for skipping processors: checked on the implementation, not proved. Guards: the "
+             "struct-node input re-execute on idle reads — the no-spurious / version-only-on-change clauses of C11 are false for them; "
+             "reads_idempotent / executed_then_processed / reexecution_needs_change hold for processors that read all their wired inputs, and "
+             "the unguarded statement C11_no_spurious_full is proved false. Freshness and version = number of executions ARE proved for "
+             "skipping processors too (and checked on the implementation). Guards: the "
              "graph is acyclic after every call (the Go API has no cycle check). 'Changed' in exec_only_if_changed means 'was written' (a Set "
              "with the same value or a re-wiring to the same source counts). Not modelled: Process() errors, Alert subscriptions. The sort "
              "inside Dependencies() is probed by the deporder oracle, not proved.",
